@@ -20,7 +20,10 @@ func init() {
 			"n <= 3 user components (4 in the thorough tier, three edge kinds)",
 			"at most one (thorough: two) non-default iteration-order answers per start",
 		},
-		Parts: []Part{{Name: "identity", Run: c01Run, QuickS: 80, ThoroughS: 1200}},
+		Parts: []Part{
+			{Name: "identity", Run: c01Run, QuickS: 120, ThoroughS: 1200},
+			{Name: "containers", Run: c01Apps, Workers: 4, QuickS: 30, ThoroughS: 60},
+		},
 	})
 }
 
